@@ -23,6 +23,9 @@ type Round struct {
 	Pack int    `json:"pack"` // 0 one packet, 1 EOM packet = last package, 2 cut inside last package, 3 last packet = last byte, 4 one package per packet, 5 one byte per packet (short responses)
 	Beh  string `json:"beh"`  // next | until-true | until-eof | until-err | nil-callback
 	J    int    `json:"j"`    // callback acts at the j-th package it sees (0-based)
+	// NoWait: NextPackageUntil is called with wait=false (only its first read does not block); the
+	// consumer polls again, after everybody has come to rest, while nothing is ready
+	NoWait bool `json:"nowait,omitempty"`
 }
 
 // RoundObs is what the consumer observed in one round.
@@ -47,6 +50,9 @@ var ErrCallbackEOF = fmt.Errorf("consumer callback failed while scanning: %w", i
 type HookCfg struct {
 	EED0, Env0 int
 	EED1, Env1 int
+	// Shared: the hooks of one registration are passed as a slice with spare capacity that the
+	// caller goes on using afterwards (it appends a hook it never registers); otherwise one call per hook
+	Shared bool `json:",omitempty"`
 }
 
 // CutsFor computes the packet boundaries for a packetisation class.
@@ -140,19 +146,60 @@ func RunRoundsCuts(cfg vrt.Config, corpus map[string]Response, rounds []Round, h
 			return
 		}
 		var log []string
+		var keepE []tds.EEDHook
+		var keepV []tds.EnvChangeHook
 		reg := func(nE, nV int, gen int) {
+			if hooks.Shared {
+				prevE, prevV := keepE, keepV
+				es := make([]tds.EEDHook, 0, nE+4)
+				for i := 0; i < nE; i++ {
+					id := fmt.Sprintf("eedhook%d.%d", gen, i)
+					es = append(es, func(e tds.EEDPackage) { log = append(log, fmt.Sprintf("%s nr=%d", id, e.MsgNumber)) })
+				}
+				vs := make([]tds.EnvChangeHook, 0, nV+4)
+				for i := 0; i < nV; i++ {
+					id := fmt.Sprintf("envhook%d.%d", gen, i)
+					vs = append(vs, func(t tds.EnvChangeType, o, n string) {
+						log = append(log, fmt.Sprintf("%s (%d %q->%q)", id, uint8(t), o, n))
+					})
+				}
+				if nE > 0 {
+					ch.RegisterEEDHooks(es...)
+					keepE = es
+				}
+				if nV > 0 {
+					ch.RegisterEnvChangeHooks(vs...)
+					keepV = vs
+				}
+				// ... and the caller goes on using the slices of its EARLIER registration
+				if prevE != nil {
+					_ = append(prevE, func(e tds.EEDPackage) { log = append(log, "NEVER-REGISTERED eed hook called") })
+				}
+				if prevV != nil {
+					_ = append(prevV, func(t tds.EnvChangeType, o, n string) { log = append(log, "NEVER-REGISTERED env hook called") })
+				}
+				return
+			}
 			for i := 0; i < nE; i++ {
 				id := fmt.Sprintf("eedhook%d.%d", gen, i)
 				ch.RegisterEEDHooks(func(e tds.EEDPackage) { log = append(log, fmt.Sprintf("%s nr=%d", id, e.MsgNumber)) })
 			}
 			for i := 0; i < nV; i++ {
 				id := fmt.Sprintf("envhook%d.%d", gen, i)
-				ch.RegisterEnvChangeHooks(func(t tds.EnvChangeType, o, n string) { log = append(log, fmt.Sprintf("%s (%d %q->%q)", id, uint8(t), o, n)) })
+				ch.RegisterEnvChangeHooks(func(t tds.EnvChangeType, o, n string) {
+					log = append(log, fmt.Sprintf("%s (%d %q->%q)", id, uint8(t), o, n))
+				})
 			}
 		}
+		// pacing of the consumer-paced server (Pack 7)
+		consumerID, peerID := vrt.Cur(), -1
+		sent := make([]int, len(rounds))  // packets of round i the server has sent
+		allow := make([]int, len(rounds)) // packets of round i the consumer has asked for explicitly
+		gate := make([]bool, len(rounds)) // the consumer's call has returned: the server may send the rest
 		// peer: answer each request (recognised by its EOM packet) with the next response
 		vrt.GoNamed("peer", func() {
-			for _, rd := range rounds {
+			peerID = vrt.Cur()
+			for ri, rd := range rounds {
 				for {
 					w := pipe.PeerRecv()
 					if w == nil {
@@ -166,6 +213,21 @@ func RunRoundsCuts(cfg vrt.Config, corpus map[string]Response, rounds []Round, h
 				cuts := CutsFor(r, rd.Pack)
 				if rd.Pack == -1 {
 					cuts = explicit
+				}
+				if rd.Pack == 7 {
+					// consumer-paced server: a packet (cut inside the last package) is sent only once the
+					// client is waiting inside the library, or has returned from its call, or asks for it
+					for i, p := range Packets(r.Bytes(), CutsFor(r, 2)) {
+						if i > 0 {
+							ri := ri
+							vrt.Block("harness: the server sends on once the client waits for it or has moved on", 0, func() bool {
+								return gate[ri] || allow[ri] > sent[ri] || vrt.IsBlocked(consumerID)
+							})
+						}
+						pipe.PeerSend(p)
+						sent[ri]++
+					}
+					continue
 				}
 				if rd.Pack == 6 {
 					// slow server: the packets (cut inside the last package) arrive one by one, each
@@ -214,17 +276,44 @@ func RunRoundsCuts(cfg vrt.Config, corpus map[string]Response, rounds []Round, h
 					}
 				}
 			}
+			k := 0
+			npk := len(Packets(corpus[rd.Resp].Bytes(), CutsFor(corpus[rd.Resp], 2)))
+			arrived := func(n int) {
+				if n > npk {
+					n = npk
+				}
+				vrt.Block("harness: until the reader has parsed what the server sent", 0, func() bool {
+					return (rd.Pack != 7 || sent[ri] >= n) && pipe.Unread() == 0 && vrt.Quiet(consumerID, peerID)
+				})
+			}
+			until := func(cb func(tds.Package) (bool, error)) (tds.Package, error) {
+				if rd.NoWait {
+					arrived(1) // what has been sent so far is parsed; a paced server's later packets are not there yet
+				}
+				for tries := 0; ; tries++ {
+					p, err := ch.NextPackageUntil(ctx, !rd.NoWait, cb)
+					if !rd.NoWait || !errors.Is(err, tds.ErrNoPackageReady) || k > 0 || tries > 100 {
+						return p, err
+					}
+					// nothing deliverable in what arrived so far: ask for the next packet and poll again
+					if rd.Pack == 7 {
+						allow[ri] = sent[ri] + 1
+						arrived(allow[ri])
+					} else {
+						vrt.Sleep(time.Millisecond)
+					}
+				}
+			}
 			switch rd.Beh {
 			case "next":
 				drainNext()
 				ro.Ret = "drained" + ro.Ret
 			case "nil-callback":
-				p, err := ch.NextPackageUntil(ctx, true, nil)
+				p, err := until(nil)
 				ro.Ret = retClass(p, err, &ro)
 				finished = true
 			default:
-				k := 0
-				p, err := ch.NextPackageUntil(ctx, true, func(p tds.Package) (bool, error) {
+				p, err := until(func(p tds.Package) (bool, error) {
 					d := see(p)
 					act := k == rd.J
 					k++
@@ -258,6 +347,10 @@ func RunRoundsCuts(cfg vrt.Config, corpus map[string]Response, rounds []Round, h
 				drainNext()
 			}
 			// nothing may be left over: let the reader finish, then poll without waiting
+			gate[ri] = true
+			if rd.NoWait || rd.Pack == 7 {
+				vrt.Sleep(time.Millisecond) // virtual: fires once everybody - a slow server included - has come to rest
+			}
 			vrt.Settle()
 			p, err := ch.NextPackage(ctx, false)
 			switch {
